@@ -385,7 +385,9 @@ caf_read_header (SF_PRIVATE *psf)
 	psf->sf.channels = desc.channels_per_frame ;
 
 	while (1)
-	{	marker = 0 ;
+	{	sf_count_t chunk_start = psf_binheader_tell (psf) ;
+
+		marker = 0 ;
 		chunk_size = 0 ;
 
 		psf_binheader_readf (psf, "mE8", &marker, &chunk_size) ;
@@ -547,6 +549,12 @@ caf_read_header (SF_PRIVATE *psf)
 
 		if (! psf->sf.seekable && have_data)
 			break ;
+
+		/* End of input, or a chunk size that takes the parser back to where it was. */
+		if (psf_binheader_tell (psf) <= chunk_start)
+		{	psf_log_printf (psf, "*** Chunk at position %D does not advance the parser. Exiting parser.\n", chunk_start) ;
+			break ;
+			} ;
 
 		if (psf_ftell (psf) >= psf->filelength - SIGNED_SIZEOF (chunk_size))
 		{	psf_log_printf (psf, "End\n") ;
